@@ -727,6 +727,8 @@ def program_job(job):
     # --basic
     text, err = run_snapinfo(['-b', path])
     obs = out_lines(text)
+    if not wf_prog:
+        obs = obs[:len(lines) + 1]          # only the lines before the first ill-formed one are judged
     key = 'basic:%s:%s:%s:%s' % (flavour, machine, fmt, place)
     cases.append(_case('basic', key, fill, bregs, page, err=err, wf=wf_prog, out=[codes(s) for s in obs],
                        nums=[number_groups(s) for s in obs], numtxt=[line_claims(its) for _, its in lines],
@@ -735,7 +737,7 @@ def program_job(job):
                                  nlines=len(lines), lineno_big=int(any(no_ > 9999 for no_, _ in lines)))))
     # --variables
     text, err = run_snapinfo(['-v', path])
-    obs = out_lines(text)
+    obs = out_lines(text) if wf_vars else []      # an ill-formed area is judged for nothing but (as drift) not crashing
     key = 'vars:%s:%s:%s:%s' % (flavour, machine, fmt, place)
     cases.append(_case('vars', key, fill, bregs, page, err=err, wf=wf_vars, out=[parse_var_line(s) for s in obs],
                        info=dict(n=n, seed=sd, file=os.path.basename(path), prog=prog, vars=vars_, text=text[:600],
@@ -814,7 +816,7 @@ def memory_job(job):
     addrs = sorted(regions)
     # ---- --peek / --word (never all-banks: these read the 64K view) --------------------------------------------
     for kind in ('peek', 'word'):
-        specs, args = [], []
+        specs, args, open_ = [], [], 0
         for _ in range(rng.randint(1, 3)):
             a = rng.choice(addrs) - rng.randint(0, 3)
             a = max(16384, a)
@@ -826,13 +828,15 @@ def memory_job(job):
             hexa = rng.random() < 0.3
             f = (lambda v: '0x%X' % v) if hexa else str
             specs.append([a, b, c])
+            if kind == 'word' and form == 1 and b > a:
+                open_ = 1                                  # the default step of --word is not documented
             args += ['-p' if kind == 'peek' else '-w', '-'.join([f(a)] + ([f(b)] if form >= 1 else []) + ([f(c)] if form == 2 else []))]
         if kind == 'peek' and flavour == 'chars':
             # every character class through --peek: plant was random, so walk a dedicated table instead
             pass
         pp = [] if machine == '48K' else ['-P', str(page)]
         text, err = run_snapinfo(args + pp + [path])
-        cases.append(_case(kind, '%s:%s:%s' % (kind, machine, fmt), fill, bregs, page, err=err, specs=specs, out=[codes(s) for s in out_lines(text)],
+        cases.append(_case(kind, '%s:%s:%s' % (kind, machine, fmt), fill, bregs, page, err=err, specs=specs, open=open_, out=[codes(s) for s in out_lines(text)],
                            info=dict(info, args=args + pp, text=text[:400])))
     # ---- --find ---------------------------------------------------------------------------------------------------
     lo = 16384
@@ -923,6 +927,7 @@ def chars_job(job):
         stepv = step if spec.count('-') == 2 else (1 if kind == 'peek' else 2)
         text, err = run_snapinfo([opt, spec] + pp + [path])
         cases.append(_case(kind, '%s:table:%s:%s' % (kind, machine, fmt), fill, bregs, page, err=err, specs=[[base, last, stepv]],
+                           open=1 if kind == 'word' and spec.count('-') == 1 else 0,
                            out=[codes(s) for s in out_lines(text)],
                            info=dict(n=n, seed=sd, file=os.path.basename(path), args=[opt, spec] + pp, text=text[:300], step=stepv)))
     os.remove(path)
